@@ -417,6 +417,8 @@ def run(chk):
                 inst, cf = rand_instance(rng, maxn=6, maxT=6, allow=tuple(a for a in plan['allow'] if a != 'cuts'))
             cf['W'] = 1
             ops = [('match', inst.T)] + [('widen', w) for w in rng.choice([[2, 3, 5], [2, 4], [2, 3], [2, 3, 4, 6]])]
+        if pid == 'C07' and cf['ne'] and rng.random() < 0.5:
+            cf['neMax'] = rng.choice([1, 1, 2, 3])       # (also after the widening-stress instance replaced cf)
         cf['labels'] = rng.choice(['id', 'zero', 'z2', 'z3', 'str', 'neg'] if pid != 'C01' else ['zero', 'z2', 'z3', 'zero', 'z2', 'z3', 'id', 'str'])
         if pid in ('C09', 'C03', 'C04', 'C05') and rng.random() < 0.3:
             cf['debug'] = True      # package logger at DEBUG: stopped candidates are materialised in the lattice
@@ -567,6 +569,8 @@ def geo_part(chk, pid, rng, n, plan):
             cf.update(ne=True, W=0, avoid_goingback=False)
         if pid == 'C07' and not cf['W']:
             cf['W'] = rng.choice([1, 2, 3])
+        if pid in ('C07', 'C09') and cf['ne'] and rng.random() < 0.4:
+            cf['ne_max'] = rng.choice([1, 1, 2, 3])       # a bounded non-emitting depth: the last layer is reached
         ops = geo_ops(rng, len(inst['path']), cf, plan['kinds'])
         if pid == 'C09' and i % 3 == 0:
             # continue-with-distance after an early stop (edge states, a distance cut-off), then re-match
